@@ -144,7 +144,10 @@ impl<T: Neg> Neg for IntOfLog<T> {
 impl<T: Evaluate> Evaluate for IntOfLog<T> {
     #[inline]
     fn evaluate(&self, v: f64) -> f64 {
-        self.k + self.poly.evaluate(v.ln())
+        // The polynomial holds q with (v * q(ln v))' = p(ln v), see the
+        // `indefinite` implementations below: the factor v is part of the
+        // antiderivative (the quartic form multiplies by v as well).
+        v.mul_add(self.poly.evaluate(v.ln()), self.k)
     }
 }
 
